@@ -47,6 +47,30 @@ claimed = {
    text="40 (quick) / 1200 (thorough) histories of 1..32 concurrent senders whose calls end in every outcome (reply, reject, T3, cancel, refused, disconnect, write error), with a drop, a forced streak of refused dials and a reconnect; an accountant derives every counter from the per-call outcomes and the peer's own frame counts and compares at quiescent points; a sampler watches both gauges (never negative; Reconnecting()>0 inside the refusal streak). Race build." + HELD,
    note="hsmsss transport. Exact equality with the peer's counts is required only at fault-free quiescent points; across a drop Send is bounded (a successful write may die in the socket buffer).",
    technique="conservation monitor: independent accountant vs library counters at quiescent points + gauge sampler"),
+ "C03": dict(level=E,
+   text="Codec half: ~145k (quick) / 1.5M (thorough) constructor/serialise/decode cases (all streams 0..255 x function classes x W, all nine control constructors x all 256 status/reason/type bytes exhaustively, NewRejectReqRaw 256x256 exhaustively, re-stamp/derive chains) against an independent E37 frame model (harness/ref/e37 + ref/e5 bodies). Wire half: a real hsmsss connection sends generated messages through all six send entry points and the raw peer's bytes are compared with Message.ToBytes() and the reference frame; the control frames the library emits (Select, Linktest.rsp, Reject, Separate) are compared byte for byte." + HELD,
+   note="Trusts harness/ref/e37 and ref/e5 as the reading of E37/E5. Known finding: a valid message whose frame exceeds 2^24-1 bytes cannot be decoded by the library itself (documented limitation M6) - reported as KNOWN-FINDING.",
+   technique="differential runtime monitor: independent E37 frame model vs constructors/ToBytes/decoders; socket-byte capture by a raw peer vs ToBytes"),
+ "C04": dict(level=E,
+   text="Decode half: ~390k (quick) / 6.8M (thorough) byte strings to the three frame decode entry points (length-field x size x PType x all 256 STypes x 14 body classes, truncations, mutations, 16 MiB cap-boundary inputs) judged by the reference acceptor; lazy body decode shared across holders incl. barrier-released concurrent first calls under the race detector. Stream half: a byte-level peer feeds a real connection with valid streams cut at every position of the first 14 bytes, random k-way splits and 1-byte dribble, idle gaps of 4xT8, in-frame stalls of 6xT8 at 10 offsets, slow-but-steady delivery, and 8 adversarial length fields with an allocation meter." + HELD,
+   note="Timing clauses decided one-sidedly: idle gaps and stalls are many multiples of T8; 'slow but steady' and segmentation cases carry a measured max-gap premise and are discarded when the harness itself stalled.",
+   technique="differential runtime monitor (reference frame acceptor) + segmenting/stalling raw peer with delivery oracle and allocation meter; race detector"),
+ "C11": dict(level=F,
+   text="338 (quick) / ~900 (thorough) single link faults, each on a fresh real connection: FIN and RST cuts after exactly k bytes read/written for every k of the 14-byte prefix of every exchange (select both ways, data primary/reply/peer primary, linktest both ways) plus body offsets; stalls covered by T6/T7/T8/write timeout/linktest; Select.rsp status 2..255; 0..8 refused dials / failed listens over a back-off configuration grid. Recovery to Selected + round trip within 6 connection opportunities; requested reconnect delays (hook) vs the reference sequence; re-dial gaps (sound direction); Reconnects(); no dial after Close. Pure back-off function over a grid incl. overflow/Inf/NaN." + HELD,
+   note="'Eventually' is decided as bounded progress (6 opportunities). hsmsss transport; SECS-I line cuts are exercised by C18's middlebox, not here.",
+   technique="fault enumeration by a byte-exact cutting/stalling peer + hook-reported back-off delays vs reference sequence"),
+ "C12": dict(level=E,
+   text="17k (quick) / 330k (thorough) snapshot-mutate-resnapshot cases over 11 provenances (constructed, decoded by every copying/owning entry point, re-stamped, derived, control messages): every public accessor/serializer is observed, every slice passed in and every slice handed out (up to capacity) is scribbled on, and the object must still equal an untouched twin; a race phase releases 16 first-call readers by a barrier while a 17th goroutine mutates inputs/outputs (race detector = aliasing witness; shared decode identity checked)." + HELD,
+   note="Encode-once of a constructed body has no API-visible identity; only its consequences (identical bytes, no race report) are judged. Documented ownership transfer (DecodeOwned*) is exempt from input-mutation checks.",
+   technique="snapshot/mutate/compare monitor against a pristine twin + race detector under barrier-released concurrent readers"),
+ "C16": dict(level=E,
+   text="~100k (quick) / 2.4M (thorough) recover-wrapped constructor calls over Go types x byte sizes x values at/beyond every bound x call shapes, judged by a reference clamp model (no panic, clamp not wrap, errors for unsupported/unparsable, cross-shape equality), an errored-item battery (never Equal, refused by NewDataMessage / NewDataMessageFromHeader / Derive.Build, nested to depth 5), and a wire half: 864 (quick) sends of errored items through every send call of live connections with the peer's log proving that no byte left." + HELD,
+   note="Where the docs explicitly document an error instead of a clamp both are accepted (never another value). Typed-nil item pointers are outside the statement (noted, not judged). Wire half: hsmsss.",
+   technique="reference clamp model + recover-wrapped constructor fuzzing; wire observer (scripted peer log) for refused sends"),
+ "C19": dict(level=E,
+   text="Pure half: the two linktest decision functions (verif export) vs a reference written from the documented rules, exhaustive over a small ordered domain, and the whole failure-accounting loop folded over ALL ~300k (quick) / 2.4M (thorough) observation histories of length <=6/7 x threshold 1..4 x suppression on/off, plus two reducer-independent invariants. E2E half: scripted peers (silent, answering, alive-but-not-answering with suppression on/off, chatty, withheld reply) on real connections; probe counts seen by the peer, still-connected checks, sound lower bound on the drop time, ControlMetrics vs peer counts." + HELD,
+   note="E2E timing is decided one-sidedly (counts and sound lower bounds); the chatty scenario needs a measured premise and is discarded otherwise.",
+   technique="exhaustive reference-fold comparison of the real reducer + scripted-peer scenario monitors under the race detector"),
 }
 
 hooks_commits = []
